@@ -39,7 +39,7 @@ ASSUMPTIONS = ['world.testing/log.testing off; locale encoding UTF-8; integers w
                'private registry.Group trees and a scratch file; registry._cache/_lastModified are restored after every load']
 LEVEL_TEXT = ('Coq theorems over an executable Gallina model of src/registry.py (names, unicode_escape codec, repr/string-literal evaluation, value classes, '
               'value lines of close(), the reader open_registry(), the Value tree with _makeChild/_setValue/getSpecific, the loader cache with the register*Value scans of src/conf.py): name split/join round trip and '
-              'save/reload round trips proved for all inputs on decidable domains with refuting witnesses outside them (finding C15.F23 remains; C15.F16, F22, F24, F25, F26, F27, F28, F29 are repaired); the model is tied to '
+              'save/reload round trips proved for all inputs on decidable domains with refuting witnesses outside them (finding C15.F23 remains; C15.F16, F22, F24, F25, F26, F27, F28, F29, F31 are repaired); the model is tied to '
               'the source by a regenerated class inventory + constant tables and by a differential run against the real registry/conf classes on every check.')
 LEVEL_NOTE = ('Trusted: Coq kernel, table extractor, extraction + OCaml driver, the Python harness; CPython primitives listed in trusted_base; '
               'Python code is modelled not verified.')
@@ -270,6 +270,9 @@ CORPUS_FIXED = [
     {'op': 'tgens', 'vars': [{'ns': ['reply', 'inPrivate'], 'flavor': 'channel', 'cls': 'registry.Boolean'}],                # C15.F29
      'gens': [[['set', 0, ['g'], 'False'], ['set', 0, ['n', 'neta'], 'True'], ['set', 0, ['nc', 'neta', '#chan'], 'True']],
               [['reset', 0, ['nc', 'neta', '#chan']], ['reset', 0, ['n', 'neta']], ['save'], ['reload'], ['read', 0, ['nc', 'neta', '#chan']], ['read', 0, ['n', 'neta']]]]},
+    {'op': 'norm', 'var': 'x' * 70, 'text': 'welcome to the channel'},                                                  # C15.F31: name of 79 characters
+    {'op': 'norm', 'var': '#' + 'c' * 64, 'text': 'w'},                                                                  # C15.F31: name of exactly 74 characters
+    {'op': 'norm', 'var': '#' + 'a-rather-long-channel-name' * 4, 'text': ''},                                          # C15.F31: even the empty value
     {'op': 'reload', 'cls': 'registry.Json', 'var': 'v', 'value': [0, '"a"'], 'text': '"a"', 'cur': None},              # C15.F16: Json is not quoted
 ]
 
@@ -982,7 +985,9 @@ def check_real_gens(ctx, inp):
 NWORDS = ['see', 'the', 'well-known', 'docs', '#chan', '#12', 'a-b-c', 'at', 'https://example.org/a/very/long/path/that/does/not/fit/on/one/line/of/the/file',
           'caf\xe9', 'x\\', '"q"', 'a:', ':', 'it\'s', 'and', 'then', 'more', 'words', '#', '##x', 'end-', '-', 'e€€€€€€€€', 'ok', '\\',
           'supercalifragilisticexpialidocious-antidisestablishmentarianism', '#fifth', 'mother-in-law', '\U0001f600\U0001f600\U0001f600']
-NVARS = ['v', 'someLongName', 'replies.x', 'a#b', 'aVeryLongVariableNameThatLeavesLittleRoomForTheValue01234567', 'x' * 70]
+NVARS = ['v', 'someLongName', 'replies.x', 'a#b', 'aVeryLongVariableNameThatLeavesLittleRoomForTheValue01234567', 'x' * 70,
+         '#' + 'c' * 64, ':' + 'n' * 65, '#' + 'a-rather-long-channel-name' * 4, 'y' * 199]
+LONGVARS = ['#' + 'c' * 70, ':' + 'network' * 12, 'v' * 100, '#' + 'long-channel-' * 15, 'X' * 199, ':net\\' + 'n' * 70]
 
 
 def norm_chunks(inst):
@@ -999,9 +1004,11 @@ def norm_chunks(inst):
     m.registry.textwrap.wrap = spy
     try:
         inst.serialize()
+    except Exception:
+        pass                 # textwrap refused the width: close() will log it and leave the line out
     finally:
         m.registry.textwrap.wrap = real
-    return rec[-1] if rec else None
+    return rec[-1] if rec else []
 
 
 def norm_case(var, text):
@@ -1097,7 +1104,7 @@ def norm_wire(var, text):
 def gnorm(rng):
     n = rng.randint(3, 28)
     words = [rng.choice(NWORDS[:8] + NWORDS[15:19]) if rng.random() < 0.6 else rng.choice(NWORDS) for _ in range(n)]
-    return rng.choice(NVARS[:5]), ' '.join(words)
+    return rng.choice(NVARS[:5] if rng.random() < 0.6 else NVARS), ' '.join(words)
 
 
 CORPUS_NORM = [('someLongName', 'please join #channel and then #other and then #third and then #fourth and #fifth ok'),
@@ -1342,6 +1349,8 @@ def gtext_for(rng, q):
 
 
 def gvar(rng):
+    if rng.random() < 0.3:
+        return rng.choice(LONGVARS)       # channel / network style nodes with names of 70-200 characters
     return rng.choice(['v', 'v', 'v', 'Var', 'a:b', 'a.b', '#chan', ':net', 'x\xe9', 'a\\b', 'v\\', 'a\\:', '#x\\', 'a,b', '"', "a'", '\U0001f600'])
 
 
